@@ -14,6 +14,7 @@ ssize_t g_cw, g_ch;
 bool g_mx0, g_mx1, g_mx2, g_mx3, g_mx4, g_my0, g_my1, g_my2, g_my3, g_my4;
 bool g_tup_ok;
 uint64_t g_t_al, g_t_cr, g_t_cg, g_t_cb, g_t_ca, g_t_dr, g_t_dg, g_t_db, g_t_da, g_t_mx, g_t_e1, g_t_e2, g_bo_r, g_bo_g, g_bo_b, g_bo_a, g_bo_e;
+uint64_t g_c1r, g_c1g, g_c1b, g_c1a;
 uint32_t g_cb_d, g_cb_s, g_cb_out;
 uint64_t g_ci_dr, g_ci_dg, g_ci_db, g_ci_da, g_ci_sr, g_ci_sg, g_ci_sb, g_ci_sa, g_co_r, g_co_g, g_co_b, g_co_a;
 #include "x_pixel_c.c"
@@ -129,3 +130,18 @@ void h_x_h_div1(void) { ssize_t in_x, in_dash; x_h_div1(in_x, in_dash); VERIF_RE
 void h_x_v_div1(void) { ssize_t in_x, in_dash; x_v_div1(in_x, in_dash); VERIF_REACH(); }
 void h_draw_text_v(void) { Image* self; IN_D GH(bool, tup_ok) ssize_t in_x, in_y; ssize_t wv, hv; int in_ptrs; IN_RGBA; uint64_t in_br, in_bg, in_bb, in_ba; const char* buf; size_t in_size;
   Image_draw_text_v(self, in_x, in_y, (in_ptrs & 1) ? &wv : 0, (in_ptrs & 2) ? &hv : 0, in_r, in_g, in_b, in_a, in_br, in_bg, in_bb, in_ba, buf, in_size); VERIF_REACH(); }
+
+/* ---- clipping invariance: the same call on a small canvas and on a larger one, same starting value of the symbolic pixel ---- */
+#define POINT_D(img) g_dimg = (img); g_dw = (img)->width; g_dh = (img)->height; g_dalpha = (img)->has_alpha; g_dcw = (img)->channel_width
+void L_fill_rect_clip(Image* small, Image* big, ssize_t x, ssize_t y, ssize_t w, ssize_t h, uint64_t r, uint64_t g, uint64_t b, uint64_t a)
+{ uint64_t r0 = g_dr, g0 = g_dg, b0 = g_db, a0 = g_da;
+  POINT_D(small); Image_fill_rect(small, x, y, w, h, r, g, b, a); g_c1r = g_dr; g_c1g = g_dg; g_c1b = g_db; g_c1a = g_da;
+  g_dr = r0; g_dg = g0; g_db = b0; g_da = a0;
+  POINT_D(big); Image_fill_rect(big, x, y, w, h, r, g, b, a); }
+void L_blit_clip(Image* small, Image* big, const Image* source, ssize_t x, ssize_t y, ssize_t w, ssize_t h, ssize_t sx, ssize_t sy)
+{ uint64_t r0 = g_dr, g0 = g_dg, b0 = g_db, a0 = g_da;
+  POINT_D(small); Image_blit(small, source, x, y, w, h, sx, sy); g_c1r = g_dr; g_c1g = g_dg; g_c1b = g_db; g_c1a = g_da;
+  g_dr = r0; g_dg = g0; g_db = b0; g_da = a0;
+  POINT_D(big); Image_blit(big, source, x, y, w, h, sx, sy); }
+void l_fill_rect_clip(void) { Image *s, *b; IN_D IN_T IN_RECT; IN_RGBA; L_fill_rect_clip(s, b, in_x, in_y, in_w, in_h, in_r, in_g, in_b, in_a); VERIF_REACH(); }
+void l_blit_clip(void) { Image *s, *b; const Image* source; IN_D IN_S IN_T IN_BLIT; L_blit_clip(s, b, source, in_x, in_y, in_w, in_h, in_sx, in_sy); VERIF_REACH(); }
